@@ -30,6 +30,8 @@ def decl_specs(tier):
             specs.append({'names': [c], 'wrapper': 'a', 'opts': opts})
             specs.append({'names': ['i1', c], 'wrapper': 'b', 'opts': opts})
     specs.append({'embed': True, 'names': []})
+    for c in ('i1', 'i3', 'dn', 'm0', 'b35', 'sn', 'su', 'sr', 'o1', 'r1', 'rs', 'sdn'):
+        specs.append({'names': [c], 'wrapper': 'd'})
     return specs
 
 
